@@ -676,3 +676,101 @@ fn native_c13_bounded() {
         }
     }
 }
+
+// ------------------------------------------------------------------------------------------------
+// C14 bounded stand-in for the write call (the Kani harnesses are limited to length <= 4 ASCII): TRAPA #0 with
+// ER0=104 through the REAL trapa / trapa_emulate_mes2 / send_stdout_message with the message-capture hook, for
+// buffers in on-chip RAM and DRAM (also ending at the last byte of the region), lengths 0,1,2,3,31,32,33,40,255,4096,
+// contents: ASCII, NUL/newline/backslash, 2-, 3- and 4-byte UTF-8 characters at every alignment relative to
+// offsets 31..33.  Checked: Ok, exactly one `stdout:` message whose payload is byte-exact, registers/CCR/PC/memory
+// unchanged.  BOUNDED, natively; not counted as proved.
+#[test]
+fn native_c14_bounded() {
+    if std::env::var("KOGE29_C14").is_err() {
+        return;
+    }
+    *crate::setting::ENABLE_PRINT_OPCODE.write().unwrap() = false;
+    let mut fails: Vec<(&'static str, String)> = vec![];
+    let mut cases = 0u32;
+    let units: [&str; 7] = ["a", "\0", "\n", "\\", "\u{e9}", "\u{3042}", "\u{1f600}"];
+    for &len_target in [0usize, 1, 2, 3, 31, 32, 33, 40, 255, 4096].iter() {
+        for (ui, unit) in units.iter().enumerate() {
+            for shift in 0..4usize {
+                // `shift` ASCII bytes, then the unit repeated, padded with ASCII to the target length
+                let mut s = String::new();
+                for _ in 0..shift.min(len_target) {
+                    s.push('x');
+                }
+                while s.len() + unit.len() <= len_target {
+                    s.push_str(unit);
+                }
+                while s.len() < len_target {
+                    s.push('y');
+                }
+                let bytes = s.as_bytes();
+                for &buf in [0xffc400u32, 0x450000, 0x5fffff + 1 - bytes.len().max(1) as u32, 0xffff1f + 1 - bytes.len().max(1) as u32].iter() {
+                    if bytes.len() > 0x3000 && buf >= 0xffbf20 {
+                        continue;
+                    }
+                    let mut cpu = Cpu::new();
+                    for (i, b) in bytes.iter().enumerate() {
+                        cpu.bus.write(buf + i as u32, *b).unwrap();
+                    }
+                    let argp = 0xffc200u32;
+                    let mut put32 = |cpu: &mut Cpu, a: u32, v: u32| {
+                        for (i, b) in v.to_be_bytes().iter().enumerate() {
+                            cpu.bus.write(a + i as u32, *b).unwrap();
+                        }
+                    };
+                    put32(&mut cpu, argp, 1);
+                    put32(&mut cpu, argp + 4, buf);
+                    put32(&mut cpu, argp + 8, bytes.len() as u32);
+                    cpu.er = [104, argp, 0x11111111, 0x22222222, 0x33333333, 0x44444444, 0x55555555, 0xffff00];
+                    cpu.ccr = 0xa5;
+                    cpu.pc = 0xffc102;
+                    cpu.operating_pc = 0xffc100;
+                    let er0 = cpu.er;
+                    let ram0 = cpu.bus.memory.clone();
+                    super::MESSAGES.with(|m| m.borrow_mut().clear());
+                    let desc = format!("length {} unit #{} shift {} buffer {:x}", bytes.len(), ui, shift, buf);
+                    let r = std::panic::catch_unwind(std::panic::AssertUnwindSafe(|| cpu.trapa(0x5700)));
+                    cases += 1;
+                    match r {
+                        Err(_) => {
+                            fails.push(("no_panic", desc.clone()));
+                            continue;
+                        }
+                        Ok(Err(_)) => {
+                            fails.push(("ok", desc.clone()));
+                            continue;
+                        }
+                        Ok(Ok(_)) => {}
+                    }
+                    let msgs: Vec<String> = super::MESSAGES.with(|m| m.borrow().clone());
+                    let outs: Vec<&String> = msgs.iter().filter(|m| m.starts_with("stdout:")).collect();
+                    if outs.len() != 1 {
+                        fails.push(("exactly_one_stdout_message", format!("{}: {} messages", desc, outs.len())));
+                    } else if outs[0].as_bytes()[7..] != *bytes {
+                        fails.push(("payload_is_exactly_the_length_bytes_at_buffer_in_order", desc.clone()));
+                    }
+                    if cpu.er != er0 || cpu.ccr != 0xa5 || cpu.pc != 0xffc102 {
+                        fails.push(("registers_sp_ccr_pc_unchanged", desc.clone()));
+                    }
+                    if cpu.bus.memory[..] != ram0[..] {
+                        fails.push(("memory_unchanged", desc.clone()));
+                    }
+                    if fails.len() > 30 {
+                        break;
+                    }
+                }
+            }
+        }
+    }
+    println!("\nC14-BOUNDED cases={} failures={}", cases, fails.len());
+    let mut seen = std::collections::BTreeSet::new();
+    for (c, d) in fails.iter() {
+        if seen.insert(*c) {
+            println!("C14-FAIL {} {}", c, d);
+        }
+    }
+}
